@@ -51,6 +51,26 @@ theorem lease_def (cut : Deadline) (cutKey key : Nat) (obs : Int) (nsTTL : Nat) 
     have : ¬ now + M < d := by omega
     simp [h, this]
 
+/-- **lease_independent_of_latency.** However long the handling of a referral takes
+between its observation and the store (`lat ≥ 0`: DS/DNSKEY sub-lookups, slow parents,
+retries), what `SetUntil` stores is the deadline computed from the OBSERVATION — the same
+value as with no latency at all — or nothing once that deadline has passed. -/
+theorem lease_independent_of_latency (cut : Deadline) (cutKey key : Nat) (obs : Int) (nsTTL : Nat) (dsTTLs : List Nat)
+    (M : Int) (lat : Nat) :
+    ∃ d, (childCut M cut cutKey obs nsTTL dsTTLs key).1 = some d ∧ d ≤ obs + (nsTTL : Int) * sec ∧ d ≤ obs + M ∧
+      (clampUntil M (obs + lat) (some d) = none ∨
+        (clampUntil M (obs + lat) (some d) = some d ∧ (obs < d → clampUntil M obs (some d) = some d))) := by
+  obtain ⟨d, hd, h1, h2, _, _, _, hn0, hs0⟩ := lease_def cut cutKey key obs nsTTL dsTTLs M (obs + lat) (by omega)
+  obtain ⟨d', hd', _, _, _, _, _, _, hs1⟩ := lease_def cut cutKey key obs nsTTL dsTTLs M obs (Int.le_refl _)
+  rw [hd] at hd'; cases hd'
+  refine ⟨d, hd, h1, h2, ?_⟩
+  by_cases h : obs + lat < d
+  · exact Or.inr ⟨hs0 h, hs1⟩
+  · exact Or.inl (hn0 (by omega))
+
+-- a 3 s lease observed at 0 whose validation took 1.5 s is stored as "until 3 s", not "until 4.5 s"
+example : clampUntil twelveHours 1500000000 (childCut twelveHours none 0 0 3 [] 9).1 = some (3 * sec) := by decide
+
 -- non-vacuity: NS 300 s, DS {3600, 60} s, ancestor cut at 45 s: the ancestor wins; stored verbatim
 example : (childCut twelveHours (some (45 * sec)) 7 0 300 [3600, 60] 9).1 = some (45 * sec) ∧
     clampUntil twelveHours 5 (some (45 * sec)) = some (45 * sec) := by decide
@@ -579,6 +599,8 @@ theorem shape_facts_hold :
     SdnsVerif.Gen.C08.shape_subquery_stores_cut = true ∧
     -- Cache.additionalAnswer: every branch that lets the chased response reach the deriving
     -- response also calls lineage.inherit() (the `finish true` step of the model)
-    SdnsVerif.Gen.C08.shape_chase_inherits_lineage = true := by decide
+    SdnsVerif.Gen.C08.shape_chase_inherits_lineage = true ∧
+    -- Resolver.groupLookup: the singleflight key contains the authority set's fingerprint
+    SdnsVerif.Gen.C08.shape_flight_key_has_fingerprint = true := by decide
 
 end SdnsVerif.Props.C08
